@@ -58,6 +58,8 @@ func run(line string) core.Outcome {
 		return runFenc(f)
 	case "opts":
 		return runOpts(f)
+	case "fenc2":
+		return runFenc2(f)
 	}
 	return core.Outcome{Impl: "bad-op"}
 }
@@ -579,6 +581,10 @@ func (prop) Generate(rng *core.Rand, tier string, emit func(string)) {
 	ro := rng.Fork()
 	for i := 0; i < ne/10; i++ {
 		emit(genOptsCase(ro))
+	}
+	r2 := rng.Fork()
+	for i := 0; i < ne/4; i++ {
+		emit(genFenc2Case(r2))
 	}
 	for i := 0; i < ns; i++ {
 		if l, ok := genSiteCase(rs); ok {
